@@ -29,6 +29,11 @@ def run(ctx):
     n = 500 if ctx.quick() else 12000
     H, impl, model, dis, hits = hc.run_profile(ctx, profiles.C05, n, trigger=trigger, extra_oracle=held_after_prune,
         claims=lambda op, a, b: op in ('DE', 'RF', 'PR'))
+    if not ctx.quick() and not hits:
+        import hist; x = hist.x
+        hc.exhaustive(ctx, 'revocation sequences', ['SETUP', 'AH '+x('D'), 'AT '+x('D')+' '+x('a')+' 0 -', 'AT '+x('D')+' '+x('b')+' 1 '+x('a'), 'AT '+x('D')+' '+x('c')+' 0 '+x('b'), 'AA '+x('S'), 'AT '+x('S')+' '+x('p')+' 0 -', 'UPD', 'KG '+x('D::b'), 'KG '+x('D::c && S::p'), 'EN 1 '+x('D::a'), 'EN 1 '+x('D::c')],
+            ['RK '+x('D::a'), 'RK '+x('D::c'), 'PR '+x('D::a'), 'PR '+x('*'), 'DT '+x('D')+' '+x('a'), 'DD '+x('S'), 'UPD', 'RF 0 1', 'RF 1 0', 'EN 99 '+x('D::b')],
+            5, ['DE 0 0', 'DE 0 1', 'DE 1 0', 'DE 1 1', 'DE 0 2', 'DE 1 2', 'DE 0 3', 'DE 1 3'] + ['DE 0 4', 'DE 1 4'], extra_oracle=held_after_prune, claims=lambda op, a, b: op in ('DE', 'RF', 'PR'))
     hc.vm_crosscheck(ctx, H, model)
     hc.finish(ctx, f'{n} random histories biased to rekey^k . prune . refresh and attribute/dimension deletion . update . refresh, both refresh flags; '
               'non-trivial = a rekey, then a prune or deletion, then a refresh and a decapsulation')
